@@ -592,6 +592,36 @@ func (c *Conn) SetLinger(sec int) error {
 	return nil
 }
 
+// sockopt is the common body of the socket-option calls of *net.TCPConn: operation kind "sockopt"
+// (fault plans index the calls in order), failing on a closed connection like the net package.
+func (c *Conn) sockopt(what string) error {
+	c.mu.Lock()
+	idx := c.count["sockopt"]
+	c.count["sockopt"] = idx + 1
+	f, ok := c.plan[opKey{"sockopt", idx}]
+	closed := c.closed
+	c.mu.Unlock()
+	if ok {
+		c.lg.Fault(f.Name)
+		c.logf("sockopt#%d %s -> FAULT %s", idx, what, f.Name)
+		return f.Err
+	}
+	if closed {
+		return c.ClosedErr("set")
+	}
+	c.logf("sockopt#%d %s", idx, what)
+	return nil
+}
+
+func (c *Conn) SetKeepAlive(bool) error                { return c.sockopt("keepalive") }
+func (c *Conn) SetKeepAlivePeriod(time.Duration) error { return c.sockopt("keepalive-period") }
+func (c *Conn) SetNoDelay(bool) error                  { return c.sockopt("nodelay") }
+func (c *Conn) SetReadBuffer(int) error                { return c.sockopt("rcvbuf") }
+func (c *Conn) SetWriteBuffer(int) error               { return c.sockopt("sndbuf") }
+
+// CloseRead shuts the read side down: further Reads of this end fail; nothing is sent to the peer.
+func (c *Conn) CloseRead() error { return c.sockopt("shutdown-read") }
+
 // CloseWrite half-closes (FIN) without closing the read side.
 func (c *Conn) CloseWrite() error {
 	c.mu.Lock()
